@@ -2,12 +2,26 @@ import PhyVerif.Model.C04
 import PhyVerif.Lemmas.C04
 import PhyVerif.Model.C04b
 import PhyVerif.Lemmas.C04b
+import PhyVerif.Model.C04c
+import PhyVerif.Spec.C04
+import PhyVerif.Spec.C04b
+import PhyVerif.Lemmas.C04c
+import PhyVerif.Lemmas.C04d
+import PhyVerif.Lemmas.C04e
+import PhyVerif.Model.C04f
+import PhyVerif.Lemmas.C04f
 /-!
 # C04 — loading a dataset reproduces its files under every supported layout
-Only property theorems + non-vacuity examples; proofs in `Lemmas/C04.lean`.
-The attribute-by-attribute table (which file, which transform, which default) is the definition of
-`load` itself and is tied to the real loader by the correspondence run; the theorems below are the
-parts that quantify over all directories.
+Only property theorems + non-vacuity examples; proofs in `Lemmas/C04*.lean`.
+
+* `Model/C04.lean` `load`: the array files (`_load_data` up to the similarity matrix);
+  `Model/C04c.lean` `loadFull`: the rest (numeric samples/times, shape assertions, positions,
+  concrete defaults, extra per-spike attributes, raw traces through the C01/C02 reader models, duration);
+  `Model/C04f.lean` `loadFeatures`, `loadTemplateFeatures`: the feature tables.
+* `Spec/C04.lean`, `Spec/C04b.lean`: the declarative table of DESIGN §5 C04 (which file wins, which
+  transform, which default), written without `findPath`/`readFile`/`load`.
+* `load_values` … `load_duration` below: every successful load satisfies the table, attribute by
+  attribute, for every directory, in both layouts.
 -/
 namespace PhyVerif.C04
 
@@ -80,6 +94,244 @@ theorem load_layout_independent (inv : Arr → Arr) (d : Dir) (t : Arr)
       v'.templateCols = v.templateCols ∧ v'.wm = v.wm ∧ v'.wmi = v.wmi ∧ v'.similar = v.similar :=
   Lemmas.load_layout_independent inv d t hks ht v d' h
 
+/-! ## The declarative table (DESIGN §5 C04) -/
+
+/-- **load_values.**  Every successful load satisfies the table, attribute by attribute: for each of
+amplitudes, spike templates, spike clusters, channel map, positions, shanks, probes, template
+waveforms, template column table, whitening matrix, its inverse and the similarity matrix, the value
+shown is the transform (column "transform") of a file that WINS the first-match search over the
+attribute's patterns (column "files, in order") in the ORIGINAL directory `d` — not in the directory
+grown by the files the loader creates on the way —, and it is `none` (the documented default is in
+force) exactly when no pattern matches any file.  Spike clusters without a cluster file are the
+transform of the winning spike-template file; template columns are only looked for when templates
+exist.  Holds for every directory (any file names, any number of candidates, both layouts mixed). -/
+theorem load_values (inv : Arr → Arr) (d : Dir) (v : View) (d' : Dir) (h : load inv d = .ok (v, d')) :
+    ∀ a : Attr, Expected d a (v.attr a) :=
+  Lemmas.load_values inv d v d' h
+
+/-- The first two rows of the table: spike samples / times come from `spike_times.npy` when it exists
+(times = samples over rate), otherwise from the winning `spikes.times*.npy` (seconds as stored) with
+the samples of the winning `spikes.samples*.npy` or, without such a file, the rounded times. -/
+theorem load_time_sources (inv : Arr → Arr) (d : Dir) (v : View) (d' : Dir) (h : load inv d = .ok (v, d')) :
+    ExpectedTimes d v.times v.samples :=
+  Lemmas.load_times inv d v d' h
+
+/-- `Wins` determines the file as soon as every pattern matches at most one file (the condition
+DESIGN §5 puts on well-formed directories: otherwise `glob` order decides in the real loader). -/
+theorem wins_unique (d : Dir) (pats : List String) (f g : String) (hu : GlobUnique d pats)
+    (hf : Wins d pats f) (hg : Wins d pats g) : f = g :=
+  Lemmas.wins_unique d pats f g hu hf hg
+
+/-- Column "when absent = error": a directory without spike templates, channel map or channel
+positions (under either name) is not loaded. -/
+theorem load_requires_mandatory (inv : Arr → Arr) (d : Dir) (a : Attr) (hm : a.mandatory = true)
+    (ha : Absent d a.files) (v : View) (d' : Dir) : load inv d ≠ .ok (v, d') :=
+  Lemmas.load_requires_mandatory inv d a hm ha v d'
+
+/-! ## Rejection of non-monotonic spike times, ALF layout -/
+
+/-- Loading rejects non-monotonic spike times in the ALF layout too: no `spike_times.npy`, `f` the
+(only) file matching `spikes.times*.npy`, its scrubbed seconds not non-decreasing ⇒ `ValueError`.
+(The real code raises the same error; a NaN among the seconds is scrubbed to 0 first, so
+`[1, NaN, 2]` is rejected as `[1, 0, 2]`.) -/
+theorem load_rejects_nonmonotone_alf (inv : Arr → Arr) (d : Dir) (f : String) (t : Arr)
+    (hks : "spike_times.npy" ∉ names d) (hu : GlobUnique d ["spikes.times*.npy"])
+    (hw : Wins d ["spikes.times*.npy"] f) (hl : d.lookup f = some t)
+    (hm : monotone (scrub t).data = false) : load inv d = .error .nonMonotone :=
+  Lemmas.load_rejects_nonmonotone_alf inv d f t hks hu hw hl hm
+
+/-- what the loader's test `np.all(np.diff(x) >= 0)` decides, on numeric cells -/
+theorem monotone_spec (l : List Int) : monotone (l.map Cell.num) = true ↔ NonDecreasing l :=
+  Lemmas.monotone_spec l
+
+/-! ## `np.round`: samples recovered from seconds -/
+
+/-- `roundHalfEven q` is within 1/2 of `q` and even whenever `q` lies exactly between two integers -/
+theorem roundHalfEven_spec (q : Rat) : IsRoundHalfEven q (roundHalfEven q) :=
+  Lemmas.roundHalfEven_spec q
+
+/-- … and it is the only such integer -/
+theorem roundHalfEven_unique (q : Rat) (z : Int) (hz : IsRoundHalfEven q z) : roundHalfEven q = z :=
+  Lemmas.roundHalfEven_unique q z hz
+
+/-- "samples recovered by rounding": the seconds of sample `s` at any positive rate round back to `s` -/
+theorem samples_recovered (rate : Rat) (hr : 0 < rate) (s : Int) :
+    roundHalfEven ((s : Rat) / rate * rate) = s :=
+  Lemmas.samples_recovered rate hr s
+
+/-! ## The full loader `loadFull` -/
+section Full
+variable {β : Type} (inv : Arr → Arr) (rate : Rat) (tden ncd : Nat) (one : Cell)
+  (raw : Option (List (List (List β)))) (d : Dir) (fv : FullView β) (d' : Dir)
+
+/-- the array part of a full load is a `load`: `load_frame`, `load_values`, `clusters_default`, …
+apply to `fv.base` and `d'` -/
+theorem loadFull_base (h : loadFull inv rate tden ncd one raw d = .ok (fv, d')) :
+    load inv d = .ok (fv.base, d') :=
+  Lemmas.loadFull_base inv rate tden ncd one raw d fv d' h
+
+/-- Numeric spike samples and times.  KiloSort layout: the samples are the (scrubbed) cells of
+`spike_times.npy` and every time is its sample divided by the rate.  ALF layout: the times are the
+stored seconds (token / `tden`); the samples are those of the winning `spikes.samples*.npy` or,
+without it, each time multiplied by the rate and rounded half-to-even (`roundHalfEven_spec`). -/
+theorem load_samples_times (h : loadFull inv rate tden ncd one raw d = .ok (fv, d')) :
+    (∀ s, d.lookup "spike_times.npy" = some s →
+      fv.spikeSamples = (scrub s).data.map cellInt ∧
+      fv.spikeTimes = fv.spikeSamples.map fun (k : Int) => (k : Rat) / rate) ∧
+    ("spike_times.npy" ∉ names d → ∃ f t, Wins d ["spikes.times*.npy"] f ∧ d.lookup f = some t ∧
+      fv.spikeTimes = (scrub t).data.map (fun c => (cellInt c : Rat) / (tden : Rat)) ∧
+      ((∃ g s, Wins d ["spikes.samples*.npy"] g ∧ d.lookup g = some s ∧
+          fv.spikeSamples = (scrub s).data.map cellInt) ∨
+       (Absent d ["spikes.samples*.npy"] ∧
+          fv.spikeSamples = fv.spikeTimes.map fun x => roundHalfEven (x * rate)))) :=
+  Lemmas.loadFull_times inv rate tden ncd one raw d fv d' h
+
+/-- The contrapositive of the rejection, on values: the spike times of every loaded model are
+non-decreasing (both layouts).  `rate > 0`: the real constructor asserts it (model.py:338: a negative
+`sample_rate` raises AssertionError, `0` / `None` is replaced by 1.0 with a warning); `tden > 0` is
+the denominator of the model's seconds tokens. -/
+theorem load_times_sorted (h : loadFull inv rate tden ncd one raw d = .ok (fv, d'))
+    (hr : 0 < rate) (htd : 0 < tden) :
+    ∀ i (hi : i + 1 < fv.spikeTimes.length), fv.spikeTimes[i] ≤ fv.spikeTimes[i + 1] :=
+  Lemmas.loadFull_times_sorted inv rate tden ncd one raw d fv d' h hr htd
+
+/-- Rows with a concrete default: shanks and probes are the winning file or zeros `(nc,)`, the
+whitening matrix the file or the identity `(nc, nc)`, the similarity matrix the file or zeros
+`(nt, nt)` — the default exactly when no pattern matches any file. -/
+theorem load_defaults (h : loadFull inv rate tden ncd one raw d = .ok (fv, d')) :
+    RowP d Attr.channelShanks.files Attr.channelShanks.transform (IsZeros [fv.nChannels]) fv.channelShanks ∧
+    RowP d Attr.channelProbes.files Attr.channelProbes.transform (IsZeros [fv.nChannels]) fv.channelProbes ∧
+    RowP d Attr.wm.files Attr.wm.transform (IsEye one fv.nChannels) fv.wm ∧
+    RowP d Attr.similar.files Attr.similar.transform (IsZeros [fv.nTemplates, fv.nTemplates]) fv.similar :=
+  Lemmas.loadFull_defaults inv rate tden ncd one raw d fv d' h
+
+/-- Channel positions: the winning file when its rows are pairwise distinct, the linear layout
+otherwise (model.py:390-393). -/
+theorem load_positions (h : loadFull inv rate tden ncd one raw d = .ok (fv, d')) :
+    ExpectedPositions d fv.nChannels fv.positions :=
+  Lemmas.loadFull_positions inv rate tden ncd one raw d fv d' h
+
+/-- Every loaded array has the documented shape (the `assert`s of `_load_data`): per-spike vectors
+`(ns,)`, per-channel tables `(nc,)`, positions `(nc, 2)`, channel ids below `n_channels_dat`,
+templates `(nt, nsw, nloc)` with a column table `(nt, nloc)`, matrices `(nc, nc)` / `(nt, nt)`.
+A directory violating one of them is not loaded (real code: AssertionError). -/
+theorem load_shapes (h : loadFull inv rate tden ncd one raw d = .ok (fv, d')) :
+    fv.base.times.arr.shape = [fv.nSpikes] ∧
+    fv.base.samples.arr.shape.length = 1 ∧
+    (∀ a, fv.base.amplitudes = some a → a.shape = [fv.nSpikes]) ∧
+    fv.base.spikeTemplates.shape = [fv.nSpikes] ∧
+    fv.base.spikeClusters.shape = [fv.nSpikes] ∧
+    fv.base.channelMap.shape = [fv.nChannels] ∧
+    (ncd ≠ 0 → ∀ c ∈ fv.base.channelMap.data, cellInt c ≤ (ncd : Int) - 1) ∧
+    fv.base.channelPositions.shape = [fv.nChannels, 2] ∧
+    fv.channelShanks.shape = [fv.nChannels] ∧
+    fv.channelProbes.shape = [fv.nChannels] ∧
+    (∀ t, fv.base.templates = some t → ∃ nsw nloc, t.shape = [fv.nTemplates, nsw, nloc] ∧
+      ∀ c, fv.templateCols = some c → c.shape = [fv.nTemplates, nloc]) ∧
+    fv.wm.shape = [fv.nChannels, fv.nChannels] ∧
+    (∀ w, fv.base.wmi = some w → w.shape = [fv.nChannels, fv.nChannels]) ∧
+    fv.similar.shape = [fv.nTemplates, fv.nTemplates] :=
+  Lemmas.loadFull_shapes inv rate tden ncd one raw d fv d' h
+
+/-- Extra per-spike attributes: attribute `n` with value `x` is shown exactly when the ORIGINAL
+directory holds `spike_<n>.npy`, `n` is not a reserved name, `x` is that file scrubbed and squeezed
+and its first dimension is the number of spikes (the files created by the loader add nothing).
+Outside: a `spike_<n>.npy` that squeezes to a 0-d array makes `loadFull` — and the real loader,
+with an uncaught IndexError — fail. -/
+theorem load_spike_attributes (h : loadFull inv rate tden ncd one raw d = .ok (fv, d')) (n : String) (x : Arr) :
+    (n, x) ∈ fv.spikeAttributes ↔ IsSpikeAttr d fv.nSpikes n x :=
+  Lemmas.loadFull_spike_attributes inv rate tden ncd one raw d fv d' h n x
+
+/-- **load_traces_permuted** (composition with the reader models of C01 and C02):
+`model.traces[rows] = raw[rows][:, channel_map]`.  For raw files of `n_channels_dat` columns each
+(any number of files of any lengths) and every in-domain row index of C01, indexing the loaded
+model's traces returns the rows NumPy returns on the concatenated files, each restricted to the
+columns listed by the loaded channel map, in that order: row `r` becomes
+`[r[cm[0]], r[cm[1]], …]`, all lookups in range.
+Hypotheses: `n_channels_dat` given (`ncd ≠ 0`; with `n_channels_dat = 0` and raw files the real
+loader raises AssertionError in `_memmap_flat`, with `None` a TypeError), rectangular raw files (what
+`np.memmap` with a shape gives), non-negative channel ids (the real code accepts negative ids too —
+they wrap like NumPy indices, `-1` reads the last column of the file — which no dataset writer
+produces). -/
+theorem load_traces_permuted (parts : List (List (List β)))
+    (h : loadFull inv rate tden ncd one (some parts) d = .ok (fv, d')) (hncd : ncd ≠ 0)
+    (hrect : ∀ p ∈ parts, ∀ row ∈ p, row.length = ncd)
+    (hnn : ∀ c ∈ fv.base.channelMap.data, 0 ≤ cellInt c) (it : C01.Item)
+    (hd : C01.InDom parts.flatten.length it) :
+    ∃ tr, fv.traces = some tr ∧
+      tracesGet parts tr it =
+        ((C01.npRows parts.flatten it).map fun rows => rows.map fun row =>
+          Np.take row (Lemmas.chans fv.base.channelMap)) ∧
+      (∀ c ∈ Lemmas.chans fv.base.channelMap, c < ncd) ∧
+      ∀ rows, C01.npRows parts.flatten it = some rows → ∀ row ∈ rows,
+        (Np.take row (Lemmas.chans fv.base.channelMap)).length = (Lemmas.chans fv.base.channelMap).length ∧
+        ∀ k (hk : k < (Lemmas.chans fv.base.channelMap).length),
+          (Np.take row (Lemmas.chans fv.base.channelMap))[k]? = row[(Lemmas.chans fv.base.channelMap)[k]]? :=
+  Lemmas.loadFull_traces inv rate tden ncd one d fv d' parts h hncd hrect hnn it hd
+
+/-- A dataset without any template file is loaded only un-curated: the loaded clusters are the loaded
+templates.  (With curated clusters the real loader fails — `self.sparse_templates.cols` on `None`,
+AttributeError at model.py:419; datasets without templates are outside C04's quantifier.) -/
+theorem load_without_templates (h : loadFull inv rate tden ncd one raw d = .ok (fv, d'))
+    (ht : fv.base.templates = none) : fv.base.spikeClusters.data = fv.base.spikeTemplates.data :=
+  Lemmas.loadFull_uncurated_without_templates inv rate tden ncd one raw d fv d' h ht
+
+/-- Sample count and duration: with raw data the number of rows of the concatenated files and that
+number over the rate; without, no traces and the last spike time. -/
+theorem load_duration (h : loadFull inv rate tden ncd one raw d = .ok (fv, d')) :
+    (∀ parts, raw = some parts → fv.nSamples = some parts.flatten.length ∧
+      fv.duration = (parts.flatten.length : Rat) / rate) ∧
+    (raw = none → fv.nSamples = none ∧ fv.duration = fv.spikeTimes.getLast?.getD 0) :=
+  Lemmas.loadFull_duration inv rate tden ncd one raw d fv d' h
+
+end Full
+
+/-! ## Feature tables (`_load_features`, `_load_template_features`) -/
+
+/-- exchanging the last two axes: entry `(i, k, j)` of the shown array is entry `(i, j, k)` of the
+stored one (C order; the stored array has `n · p · q` cells) -/
+theorem transpose021_spec (a : Arr) (n p q : Nat) (hs : a.shape = [n, p, q]) (hl : a.data.length = n * (p * q)) :
+    (transpose021 a).shape = [n, q, p] ∧ (transpose021 a).data.length = n * (q * p) ∧
+    ∀ i j k, i < n → j < p → k < q →
+      (transpose021 a).data[i * (q * p) + (k * p + j)]? = a.data[i * (p * q) + (j * q + k)]? :=
+  Lemmas.transpose021_spec a n p q hs hl
+
+/-- Principal-component features: shown iff `pc_features.npy` exists; the data are the stored array
+(squeezed, NOT scrubbed — it is memory-mapped) with its last two axes exchanged; the column table is
+`pc_feature_ind.npy` (not scrubbed either) of shape `(nt, nloc)` or absent (dense), the row table
+`pc_feature_spike_ids.npy` (scrubbed) of one entry per stored row or absent (all spikes). -/
+theorem load_features (d : Dir) (nt : Nat) (s : Sparse) (h : loadFeatures d nt = .ok (some s)) :
+    ∃ a, d.lookup "pc_features.npy" = some a ∧ (feat3 a).shape.length = 3 ∧
+      s.data = transpose021 (feat3 a) ∧
+      Row d ["pc_feature_ind.npy"] featCols s.cols ∧
+      (∀ c, s.cols = some c → c.shape = [nt, (s.data.shape.drop 1).headD 0]) ∧
+      Row d ["pc_feature_spike_ids.npy"] (fun r => squeeze (scrub r)) s.rows ∧
+      (∀ r, s.rows = some r → r.shape = [s.data.shape.headD 0]) :=
+  Lemmas.loadFeatures_some d nt s h
+
+/-- … and no features are shown only when the file is absent -/
+theorem load_features_absent (d : Dir) (nt : Nat) (h : loadFeatures d nt = .ok none) :
+    "pc_features.npy" ∉ names d :=
+  Lemmas.loadFeatures_none d nt h
+
+/-- Template features: `template_features.npy` squeezed (memory-mapped, not scrubbed), 2-D, with the
+optional tables `template_feature_ind.npy` `(nt, nloc)` and `template_feature_spike_ids.npy`. -/
+theorem load_template_features (d : Dir) (nt : Nat) (s : Sparse) (h : loadTemplateFeatures d nt = .ok (some s)) :
+    ∃ a, d.lookup "template_features.npy" = some a ∧ (squeeze a).shape.length = 2 ∧
+      s.data = squeeze a ∧
+      Row d ["template_feature_ind.npy"] (fun c => squeeze (scrub c)) s.cols ∧
+      (∀ c, s.cols = some c → c.shape = [nt, (s.data.shape.drop 1).headD 0]) ∧
+      Row d ["template_feature_spike_ids.npy"] (fun r => squeeze (scrub r)) s.rows ∧
+      (∀ r, s.rows = some r → r.shape = [s.data.shape.headD 0]) :=
+  Lemmas.loadTemplateFeatures_some d nt s h
+
+/-- the files created while loading do not change what the feature tables are read from: any
+literal name other than the two created ones reads the same in `d'` as in `d` -/
+theorem features_frame (inv : Arr → Arr) (d : Dir) (v : View) (d' : Dir) (h : load inv d = .ok (v, d'))
+    (name : String) (hn : ∀ g ∈ Lemmas.createdNames, globMatch name g = false) :
+    readFile d' [name] = readFile d [name] :=
+  Lemmas.readFile_features_frame inv d v d' h name hn
+
 /-! Non-vacuity -/
 example :
     let d : Dir := [("spike_times.npy", ⟨[3, 1], [.num 1, .num 4, .num 4]⟩), ("spike_templates.npy", ⟨[3], [.num 0, .num 1, .num 0]⟩),
@@ -98,5 +350,108 @@ example :
              ("spikes.clusters.npy", ⟨[2], [.num 0, .num 1]⟩), ("spike_clusters.npy", ⟨[2], [.num 0, .num 1]⟩),
              ("channel_map.npy", ⟨[1], [.num 0]⟩), ("channel_positions.npy", ⟨[1, 2], [.num 0, .num 0]⟩)]
       = .error (.conflict "spike clusters") := by rfl
+
+/-! Non-vacuity of the table theorems and of `loadFull` -/
+
+/-- an ALF-named directory with a label, two candidates for the amplitudes, one extra attribute -/
+def exAlf : Dir :=
+  [("spikes.times.p0.npy", ⟨[3, 1], [.num 1, .num 3, .num 5]⟩),           -- seconds · 2 (tden = 2)
+   ("spikes.templates.p0.npy", ⟨[3], [.num 0, .num 1, .num 0]⟩),
+   ("spikes.amps.p0.npy", ⟨[3], [.num 9, .num 9, .num 9]⟩),
+   ("amplitudes.npy", ⟨[3, 1], [.num 1, .nan, .inf]⟩),
+   ("channels.rawInd.npy", ⟨[2], [.num 2, .num 0]⟩),
+   ("channels.localCoordinates.npy", ⟨[2, 2], [.num 0, .num 0, .num 0, .num 0]⟩),
+   ("templates.waveforms.p0.npy", ⟨[2, 2, 2], [.nan, .nan, .nan, .nan, .num 1, .nan, .num 3, .num 4]⟩),
+   ("spike_depth.npy", ⟨[3, 1], [.num 7, .inf, .num 8]⟩),
+   ("spike_wrong.npy", ⟨[4], [.num 7, .num 7, .num 7, .num 7]⟩)]
+
+def exRaw : List (List (List Nat)) := [[[0, 1, 2], [10, 11, 12]], [[20, 21, 22]]]
+
+example : Wins exAlf Attr.amplitudes.files "amplitudes.npy" :=
+  ⟨0, by decide, by decide, by decide, fun j _ hj => absurd hj (by omega)⟩
+example : Wins exAlf Attr.templates.files "templates.waveforms.p0.npy" :=
+  ⟨2, by decide, by decide, by decide, by decide⟩
+example : Absent exAlf Attr.wm.files := by decide
+example : GlobUnique exAlf ["spikes.times*.npy"] := by decide
+
+/-- what a projection of the loaded view shows on `exAlf` (1000 Hz, seconds tokens over 2, three raw
+columns, `4` standing for 1.0, two raw files) -/
+def exShow {α : Type} (f : FullView Nat × Dir → α) : Option α :=
+  match loadFull (β := Nat) id 1000 2 3 (.num 4) (some exRaw) exAlf with
+  | .ok r => some (f r)
+  | .error _ => none
+
+example : exShow (fun r => (r.1.spikeTimes, r.1.spikeSamples, r.1.base.amplitudes, r.1.base.templates.map (·.data))) =
+    some ([1/2, 3/2, 5/2], [500, 1500, 2500], some ⟨[3], [.num 1, .num 0, .num 0]⟩,
+          some [.num 0, .num 0, .num 0, .num 0, .num 1, .nan, .num 3, .num 4]) := by decide +kernel
+example : exShow (fun r => (r.1.positions, r.1.wm.data, r.1.spikeAttributes)) =
+    some (.linear 2, [.num 4, .num 0, .num 0, .num 4], [("depth", ⟨[3], [.num 7, .num 0, .num 8]⟩)]) := by
+  decide +kernel
+example : exShow (fun r => (r.1.nSamples, r.1.duration,
+      r.1.traces.bind fun tr => tracesGet exRaw tr (.slice (some 1) none))) =
+    some (some 3, 3/1000, some [[12, 10], [22, 20]]) := by decide +kernel
+example : exShow (fun r => r.2.map (·.1)) =
+    some (["spikes.times.p0.npy", "spikes.templates.p0.npy", "spikes.amps.p0.npy", "amplitudes.npy",
+       "channels.rawInd.npy", "channels.localCoordinates.npy", "templates.waveforms.p0.npy",
+       "spike_depth.npy", "spike_wrong.npy", "spike_clusters.npy", "whitening_mat_inv.npy"]) := by
+  decide +kernel
+
+example : [1/2, 3/2, 5/2, 7/2, -1/2, -3/2, 7/4, 2].map roundHalfEven = [0, 2, 2, 4, 0, -2, 2, 2] := by
+  decide +kernel
+example : linearPositions 3 = [[0, 0], [0, 1/2], [0, 1]] := by decide +kernel
+
+/-- hypotheses of `load_rejects_nonmonotone_alf` on a concrete directory -/
+example :
+    let d : Dir := [("spikes.times.npy", ⟨[3], [.num 1, .nan, .num 2]⟩), ("spikes.templates.npy", ⟨[3], [.num 0, .num 1, .num 0]⟩)]
+    "spike_times.npy" ∉ names d ∧ GlobUnique d ["spikes.times*.npy"] ∧
+    d.lookup "spikes.times.npy" = some ⟨[3], [.num 1, .nan, .num 2]⟩ ∧
+    monotone (scrub ⟨[3], [.num 1, .nan, .num 2]⟩).data = false ∧
+    (match load id d with | .error .nonMonotone => true | _ => false) = true := by
+  decide
+example : Wins [("spikes.times.npy", ⟨[3], [.num 1, .nan, .num 2]⟩)] ["spikes.times*.npy"] "spikes.times.npy" :=
+  ⟨0, by decide, by decide, by decide, fun j _ hj => absurd hj (by omega)⟩
+example : C01.InDom exRaw.flatten.length (.slice (some 1) none) := by
+  unfold C01.InDom; refine ⟨?_, ?_, ?_⟩ <;> decide
+/-- a 0-d extra attribute makes the load fail (real code: IndexError) -/
+example : (match loadSpikeAttributes 3 [("spike_x.npy", ⟨[1], [.num 5]⟩)] with
+    | .error (.scalarAttr f) => f | _ => "") = "spike_x.npy" := by decide
+
+example : transpose021 ⟨[1, 2, 3], [.num 0, .num 1, .num 2, .num 3, .num 4, .num 5]⟩ =
+    ⟨[1, 3, 2], [.num 0, .num 3, .num 1, .num 4, .num 2, .num 5]⟩ := by decide
+example :
+    (match loadFeatures [("pc_features.npy", ⟨[2, 2, 3], [.num 0, .nan, .num 2, .num 3, .num 4, .num 5,
+                                                          .num 6, .num 7, .num 8, .num 9, .inf, .num 11]⟩),
+                         ("pc_feature_ind.npy", ⟨[2, 3], [.num 0, .num 1, .num 2, .num 2, .num 1, .num 0]⟩),
+                         ("pc_feature_spike_ids.npy", ⟨[2, 1], [.num 4, .num 9]⟩)] 2 with
+     | .ok (some s) => some (s.data, s.cols.map (·.shape), s.rows)
+     | _ => none) =
+    some (⟨[2, 3, 2], [.num 0, .num 3, .nan, .num 4, .num 2, .num 5, .num 6, .num 9, .num 7, .inf, .num 8, .num 11]⟩,
+          some [2, 3], some ⟨[2], [.num 4, .num 9]⟩) := by decide
+
+/-- hypotheses of `load_requires_mandatory`: a directory without any channel map -/
+example : Attr.channelMap.mandatory = true ∧ Absent exAlf Attr.spikeClusters.files ∧
+    Absent [("spike_times.npy", (⟨[2], [.num 1, .num 2]⟩ : Arr)), ("spike_templates.npy", ⟨[2], [.num 0, .num 1]⟩)]
+      Attr.channelMap.files := by decide
+example : NonDecreasing [1, 3, 3, 7] ∧ monotone ([1, 3, 3, 7].map Cell.num) = true ∧
+    monotone ([1, 3, 2].map Cell.num) = false :=
+  ⟨(monotone_spec [1, 3, 3, 7]).1 (by decide), by decide, by decide⟩
+example : roundHalfEven ((62 : Int) / (1000 : Rat) * 1000) = 62 ∧ roundHalfEven ((1 : Rat) / 16 * 1000) = 62 := by
+  decide +kernel
+/-- a dataset without templates (and without curation) loads; `n_templates` is the highest id + 1 -/
+example :
+    (match loadFull (β := Nat) id 1000 1 0 (.num 4) none
+        [("spike_times.npy", ⟨[3], [.num 1, .num 2, .num 5]⟩), ("spike_templates.npy", ⟨[3], [.num 0, .num 2, .num 0]⟩),
+         ("channel_map.npy", ⟨[2], [.num 0, .num 1]⟩), ("channel_positions.npy", ⟨[2, 2], [.num 0, .num 0, .num 0, .num 1]⟩)] with
+     | .ok (fv, _) => some (fv.base.templates, fv.nTemplates, fv.similar.shape, fv.duration)
+     | .error _ => none) = some (none, 3, [3, 3], 5 / 1000) := by decide +kernel
+example :
+    (match loadTemplateFeatures [("template_features.npy", ⟨[2, 2], [.num 1, .nan, .num 3, .num 4]⟩),
+                                 ("template_feature_spike_ids.npy", ⟨[2], [.num 0, .num 5]⟩)] 3 with
+     | .ok (some s) => some (s.data.data, s.cols, s.rows)
+     | _ => none) = some ([.num 1, .nan, .num 3, .num 4], none, some ⟨[2], [.num 0, .num 5]⟩) := by decide
+/-- hypothesis of `features_frame` for the six feature files -/
+example : ∀ name ∈ ["pc_features.npy", "pc_feature_ind.npy", "pc_feature_spike_ids.npy", "template_features.npy",
+      "template_feature_ind.npy", "template_feature_spike_ids.npy"],
+    ∀ g ∈ Lemmas.createdNames, globMatch name g = false := by decide
 
 end PhyVerif.C04
